@@ -2385,7 +2385,8 @@ def run(ctx):
                 "time, every component judged through getVolume and getMass; setLink histories (numeric annuli turned into "
                 "links at value coincidence and non-coincidence, links moved between components with equal values, onto "
                 "linked dimensions, after resizing the target) with heating / hot sets in between, declared links judged "
-                "after every call. distinct = (shape, material, history "
+                "after every call; inherited expanding dimensions (Square's lengthOuter / lengthInner, pass-through subclasses of "
+                "library shapes) read hot, through a link held by a Void and by an expanding solid, and hot-set. distinct = (shape, material, history "
                 "index) / (config, seed); all non-trivial (real setTemperature/getDimension/getArea calls compared with the "
                 "model and judged by the oracle).")
 
